@@ -23,7 +23,10 @@ TNext == /\ l <= Len(Traces[tid].ev)
          /\ l' = l + 1 /\ UNCHANGED tid
          /\ LET e == Ev IN
               /\ (TMapOk(e) \/ TMapFail(e) \/ TUnmap(e) \/ TAbort(e))
-              /\ slot' = Tbl(e)             \* the master's own table agrees with the specification
+              \* the master's own table agrees with the specification - except while other mappings of a
+              \* concurrently started batch are still being set up (they have reserved their FMMU already):
+              \* such events are marked loose, the last event of the batch is strict again
+              /\ (("loose" \in DOMAIN e /\ e.loose) \/ slot' = Tbl(e))
 TSpec == TInit /\ [][TNext]_tvars
 
 Max2(a, b) == IF a > b THEN a ELSE b
